@@ -36,6 +36,7 @@
 #include <unifex/type_list.hpp>
 #include <unifex/type_traits.hpp>
 
+#include <algorithm>
 #include <exception>
 #include <functional>
 #include <memory>
@@ -226,14 +227,15 @@ struct _receiver<Predecessor, Receiver, Func, FuncPolicy>::type {
                                 unifex::bulk_schedule(
                                     std::move(sched), num_chunks),
                                 [&](diff_t index) {
-                                  auto chunk_begin_it =
-                                      begin_it + (chunk_size * index);
-                                  auto chunk_end_it = chunk_begin_it;
-                                  if (index < (num_chunks - 1)) {
-                                    std::advance(chunk_end_it, chunk_size);
-                                  } else {
-                                    chunk_end_it = end_it;
-                                  }
+                                  // chunk_size is rounded up, so the last
+                                  // chunks may start beyond the end of the
+                                  // range: clamp both bounds to the range
+                                  const diff_t dist =
+                                      std::distance(begin_it, end_it);
+                                  auto chunk_begin_it = begin_it +
+                                      std::min(chunk_size * index, dist);
+                                  auto chunk_end_it = begin_it +
+                                      std::min(chunk_size * (index + 1), dist);
 
                                   for (auto it = chunk_begin_it;
                                        it != chunk_end_it;
